@@ -183,6 +183,10 @@ pub enum Op {
     Expected { variant: usize, ids: Vec<u64> },
     DeJson { slot: usize, variant: usize, text: String, via_value: bool },
     DeBin { slot: usize, variant: usize, bytes: Vec<u8> },
+    /// three threads read the fields in `mask` through a shared reference at the same time
+    ThreadShare { slot: usize, mask: u64 },
+    /// the record is moved to another thread, read there, and moved back
+    ThreadSend { slot: usize, mask: u64 },
     /// builds a `Vec<CappedRecordN>` from `ids` (one row per element), converts it in place to
     /// the next variant (form 0), abandoning the elements whose bit is clear in `keep`
     VecConvert { variant: usize, rows: Vec<Vec<u64>>, plus_rows: Vec<Vec<u64>>, keep: u64, spare: usize },
@@ -414,6 +418,10 @@ pub struct RunArgs {
     pub replay: Option<(String, usize, u64)>,
     /// skip serialisation operations (their dependencies trip Miri's symbolic alignment check)
     pub no_serde: bool,
+    /// share and send records between threads (drivers built with the `threads` feature)
+    pub threads: bool,
+    /// skip the deterministic sweeps
+    pub no_sweeps: bool,
     /// only episodes are run, no static layout checks output
     pub only_caps: Option<Vec<usize>>,
 }
@@ -437,6 +445,8 @@ impl RunArgs {
             modules: get("--modules").map(|m| m.split(',').map(|s| s.to_owned()).collect()),
             readback_every: num("--readback-every", 1) as usize,
             no_serde: args.iter().any(|a| a == "--no-serde"),
+            threads: args.iter().any(|a| a == "--threads"),
+            no_sweeps: args.iter().any(|a| a == "--no-sweeps"),
             only_caps: get("--caps").map(|c| c.split(',').filter_map(|x| x.parse().ok()).collect()),
             replay: get("--replay").map(|r| {
                 // module:cap:episode
